@@ -414,6 +414,50 @@ def dispatch (o : Out) : Action :=
     if o.canon ≠ [] ∧ o.ips = [] then .upstream o.canon else .answer o.canon o.ips
   else .pass
 
+/-! ### DNS level: what the client and the upstream see
+
+`handleDNSRequest` with an upstream that answers every A question with one
+address `ups4`, every AAAA question with `ups6` and everything else with an empty
+NOERROR (the harness's recording upstream). -/
+
+structure RR where
+  typ : Nat
+  owner : Bytes
+  data : Bytes
+  deriving DecidableEq, Repr
+
+structure DnsObs where
+  /-- names the upstream was asked for, in order -/
+  asked : List Bytes
+  rcode : Nat
+  /-- name in the question section of the reply -/
+  question : Bytes
+  answer : List RR
+  deriving DecidableEq, Repr
+
+def ups4 : Bytes := [57, 46, 57, 46, 57, 46, 57]   -- "9.9.9.9"
+def ups6 : Bytes := [57, 58, 58, 57]               -- "9::9"
+
+def upstreamAnswer (name : Bytes) (qt : Nat) : List RR :=
+  if qt = qA then [⟨1, name, ups4⟩] else if qt = qAAAA then [⟨28, name, ups6⟩] else []
+
+/-- filterDNSRequest + processUpstream + processFilteringAfterResponse +
+getCNAMEWithIPs, given the result of `CheckHost`. -/
+def render (o : Out) (host : Bytes) (qt : Nat) : DnsObs :=
+  match dispatch o with
+  | .pass => ⟨[host], 0, host, upstreamAnswer host qt⟩
+  | .upstream c => ⟨[c], 0, host, ⟨5, host, c⟩ :: upstreamAnswer c qt⟩
+  | .answer c ips =>
+    let owner := if c = [] then host else c
+    let addrs := if qt = qA ∨ qt = qAAAA then ips.map (fun ip => (⟨qt, owner, ip⟩ : RR)) else []
+    ⟨[], 0, host, (if c = [] then [] else [⟨5, host, c⟩]) ++ addrs⟩
+
+def respondWith (srt : Bytes → Sorter) (tbl : List Entry) (host : Bytes) (qt : Nat) : DnsObs :=
+  render (checkHostWith srt tbl host qt) host qt
+
+def respond (tbl : List Entry) (host : Bytes) (qt : Nat) : DnsObs :=
+  respondWith (fun _ => stable) tbl host qt
+
 /-- True when some lookup the run can reach sorts more than 12 candidates, so
 that Go's `pdqsort` leaves insertion sort and tie order is unspecified. -/
 def unstableRegime (tbl : List Entry) (host : Bytes) (qt : Nat) : Bool :=
